@@ -36,6 +36,11 @@ type ClientT struct {
 	HTTPStatus int    `json:"http_status,omitempty"`
 	BodyErr    string `json:"body_err,omitempty"`
 	Extra      int    `json:"extra_objects,omitempty"` // JSON objects after the expected replies
+	// WebSocket front only: close code (-1 none, 1005 close frame without
+	// code) and reason, or how the connection ended without a close frame
+	WSCode   int    `json:"ws_close_code,omitempty"`
+	WSReason string `json:"ws_close_reason,omitempty"`
+	WSEnd    string `json:"ws_end,omitempty"`
 	// transport-level failure of the harness's own client (not a status)
 	TransportErr string `json:"transport_err,omitempty"`
 	TimedOut     bool   `json:"timed_out,omitempty"`
@@ -466,6 +471,7 @@ func runHTTP(ctx context.Context, hc *http.Client, base string, s *Script, callI
 		return t
 	}
 	req.Header.Set("Accept", "application/json")
+	setHop(req.Header, s.Hop)
 	req.Header.Set("X-Vf-Id", callID)
 	if s.MetaPlan {
 		req.Header.Set("X-Vf-Plan-Bin", encodeBin([]byte(s.planJSON())))
